@@ -98,6 +98,7 @@ fn main() -> anyhow::Result<()> {
 fn child(args: &[String]) -> i32 {
     match args.first().map(String::as_str) {
         Some("c05") => c05::child(&args[1..]),
+        Some("c10") => c10::child(&args[1..]),
         Some("c11") => c11::child(&args[1..]),
         Some("c12") => c12::child(&args[1..]),
         _ => 2,
